@@ -283,12 +283,33 @@ func decoys(main, ctr string) []string {
 		main + "/container." + ctr + " ", main + ".", strings.ToUpper(main), main + "/pods", main + "/container/" + ctr}
 }
 
-// genInjCase: stream = main | malformed | prefix
+// bareOnly reports whether the pod names the injector only through bare main keys: some bare key is present and
+// no annotation key at all starts with "<main key>/" (no container- or pod-scoped key, for anybody).
+func bareOnly(ann map[string]string) bool {
+	some := false
+	for k := range ann {
+		for _, main := range diMains {
+			if k == main {
+				some = true
+			}
+			if strings.HasPrefix(k, main+"/") {
+				return false
+			}
+		}
+	}
+	return some
+}
+
+// genInjCase: stream = main | malformed | prefix | bareonly
 func genInjCase(r *rand.Rand, stream string, i int) *injCase {
 	cs := &injCase{Plugin: "device-injector", Stream: stream, Ctr: ctrNames[r.Intn(len(ctrNames))], Ann: map[string]string{}, Values: map[string]value{}, Levels: map[string]string{}}
 	pBad := 3
 	if stream == "malformed" {
 		pBad = 30
+	}
+	if stream == "bareonly" {
+		// every third case carries (mostly) malformed payloads: a malformed bare-key annotation must fail the request
+		pBad = []int{0, 0, 60}[i%3]
 	}
 	gen := func(kind, tag string) value {
 		if r.Intn(100) < pBad {
@@ -303,6 +324,35 @@ func genInjCase(r *rand.Rand, stream string, i int) *injCase {
 		return genMnts(r, tag)
 	}
 	n := 0
+	if stream == "bareonly" {
+		// the pod's injector annotations are exclusively bare keys: a non-empty subset of the three kinds (i%7+1 as a
+		// bit set, so every subset recurs), decoys that are not scoped keys, unrelated annotations; no key anywhere
+		// starts with "<main key>/"
+		kinds := []string{"dev", "cdi", "mnt"}
+		for b, kind := range kinds {
+			if (i%7+1)&(1<<b) == 0 {
+				continue
+			}
+			main := diMains[kind]
+			n++
+			v := gen(kind, fmt.Sprintf("bare%d", n))
+			cs.Ann[main], cs.Values[main] = v.Text, v
+			for _, d := range []string{"x" + main, main + ".", strings.ToUpper(main)} {
+				if r.Intn(100) < 10 {
+					n++
+					dv := gen(kind, fmt.Sprintf("decoy%d", n))
+					cs.Ann[d], cs.Values[d] = dv.Text, dv
+				}
+			}
+		}
+		if r.Intn(3) == 0 {
+			cs.Ann["io.kubernetes.cri.sandbox-name"] = "pod0"
+		}
+		if r.Intn(3) == 0 {
+			cs.Ann[ulMain+"/container."+cs.Ctr] = `[{"type": "nofile", "hard": 2, "soft": 1}]` // somebody else's scoped key
+		}
+		return cs
+	}
 	for _, kind := range []string{"dev", "cdi", "mnt"} {
 		main := diMains[kind]
 		put := func(key, tag string) {
@@ -759,6 +809,7 @@ func driveInjectors(c *hx.Ctx) error {
 		{"device-injector", "main", c.Pick(120, 5000)},
 		{"device-injector", "malformed", c.Pick(80, 3000)},
 		{"device-injector", "prefix", c.Pick(80, 3000)},
+		{"device-injector", "bareonly", c.Pick(63, 2100)},
 		{"ulimit-adjuster", "main", c.Pick(120, 4000)},
 		{"ulimit-adjuster", "errors", c.Pick(90, 3000)},
 		{"ulimit-adjuster", "prefix", c.Pick(60, 2000)},
@@ -807,6 +858,13 @@ func driveInjectors(c *hx.Ctx) error {
 			} else {
 				c.Count("c20."+short+".expected.error", 1)
 			}
+			if short == "inj" && bareOnly(cs.Ann) {
+				if e.ok {
+					c.Count("c20.inj.bare_only.expected.ok", 1)
+				} else {
+					c.Count("c20.inj.bare_only.expected.error", 1)
+				}
+			}
 			c.Count("c20.cases."+short+"."+s.name, 1)
 			c.Eval(fmt.Sprintf("%s/%s/%s/%v", short, s.name, cs.Ctr, cs.Ann), nontrivial || foreign > 0)
 			if len(bad) > 0 {
@@ -820,14 +878,15 @@ func driveInjectors(c *hx.Ctx) error {
 	}
 	d := c.Stats.Distribution
 	for _, k := range []string{"c20.inj.selected.dev.container", "c20.inj.selected.dev.pod", "c20.inj.selected.dev.bare", "c20.inj.selected.mnt.container",
-		"c20.inj.selected.cdi.pod", "c20.inj.expected.error", "c20.ul.expected.error", "c20.ul.selected.ul.container", "c20.inj.foreign_container_keys", "c20.ul.foreign_container_keys"} {
+		"c20.inj.selected.cdi.pod", "c20.inj.expected.error", "c20.ul.expected.error", "c20.ul.selected.ul.container", "c20.inj.foreign_container_keys", "c20.ul.foreign_container_keys",
+		"c20.inj.bare_only.expected.ok", "c20.inj.bare_only.expected.error"} {
 		if d[k] == 0 {
 			c.HarnessError("injector streams missed their target shape: %s = 0", k)
 		}
 	}
 	c.Stats.Extra = map[string]interface{}{"plugin_build_ms": buildMs, "cases_failing_go_oracle": failing,
 		"trusted": "sigs.k8s.io/yaml is assumed to decode the rendered one-line JSON to the value it was rendered from, and to reject the malformed texts"}
-	c.Stats.Rule = "pod annotation maps mixing keys for this container, other containers (random and prefix-related names), pod scope, the bare key and near-miss decoy keys, under each main key; values = structured payloads (boundary integers, optional fields left out, unknown fields) rendered to one-line JSON, or malformed texts; sent as CreateContainer through a real Adaptation to the real plugin binaries; a case is non-trivial when some annotation applies to the container or some key addresses another container"
+	c.Stats.Rule = "stream bareonly: pods whose injector annotations are exclusively bare main keys (every non-empty subset of devices / CDI devices / mounts, valid and malformed payloads, no key starting with a main key and a slash); otherwise pod annotation maps mixing keys for this container, other containers (random and prefix-related names), pod scope, the bare key and near-miss decoy keys, under each main key; values = structured payloads (boundary integers, optional fields left out, unknown fields) rendered to one-line JSON, or malformed texts; sent as CreateContainer through a real Adaptation to the real plugin binaries; a case is non-trivial when some annotation applies to the container or some key addresses another container"
 	return nil
 }
 
